@@ -82,7 +82,6 @@ package shell_operator
 //@ ghost lastHookErr error
 //@ ghost nSetAdm int
 //@ ghost lastAdmProp interface{}
-//@ ghost nPatchExec int
 //@ package github.com/flant/shell-operator/pkg/hook
 //@ trusted func (*Hook).Run
 //@   requires [rate-limit-token] shell_operator.lastWaitHook == h && shell_operator.lastWaitErr == nil && h != nil
@@ -101,13 +100,6 @@ package shell_operator
 //@ trusted func (*Response).Dump
 //@   modifies nothing
 //@ package github.com/flant/shell-operator/pkg/kube/object_patch
-//@ trusted func ParseOperations
-//@   modifies nothing
-//@ trusted func GetPatchStatusOperationsOnHookError
-//@   modifies nothing
-//@ trusted func (*ObjectPatcher).ExecuteOperations
-//@   modifies shell_operator.nPatchExec
-//@   ghostset shell_operator.nPatchExec := shell_operator.nPatchExec + 1
 //@ package github.com/flant/shell-operator/pkg/metric
 //@ trusted func Storage.HistogramObserve
 //@   modifies nothing
@@ -127,19 +119,24 @@ package shell_operator
 // metrics and its object patches all succeeded, and it is the very response the hook wrote.
 // C13: patches are applied at most once per execution, before metrics and responses are accepted.
 //@ func (*ShellOperator).handleRunHook
-//@   prop C14, C18, C04
+//@   prop C14, C18, C04, C13
 //@   requires [rate-limit-token] lastWaitHook == taskHook && lastWaitErr == nil && taskHook != nil
 //@   requires taskHook.HookController != nil && t != nil
-//@   modifies nRun, ranContexts, ranErr, lastWaitHook, lastHookResult, lastHookErr, nSetAdm, lastAdmProp, nPatchExec
+//@   modifies nRun, ranContexts, ranErr, lastWaitHook, lastHookResult, lastHookErr, nSetAdm, lastAdmProp, objectpatch.nPatchExec, objectpatch.nExec, objectpatch.execOp, objectpatch.execErr, objectpatch.lastSpecs, objectpatch.lastDecodeErr
 //@   ghostset ranErr := result
 //@   ensures [runs-once]                nRun == old(nRun) + 1 && ranContexts == hookMeta.BindingContext
 //@   ensures [hook-error-fails]         lastHookErr != nil ==> result != nil
 //@   ensures [response-only-on-success] nSetAdm > old(nSetAdm) ==> result == nil && lastHookErr == nil && nSetAdm == old(nSetAdm) + 1
 //@   ensures [response-is-hooks]        nSetAdm > old(nSetAdm) ==> dyntype(lastAdmProp, *admission.Response) && lastAdmProp.(*admission.Response) == lastHookResult.AdmissionResponse && lastHookResult.AdmissionResponse != nil
 //@   ensures [response-stored]          result == nil && lastHookResult.AdmissionResponse != nil ==> nSetAdm == old(nSetAdm) + 1
-//@   ensures [patch-at-most-once]       nPatchExec <= old(nPatchExec) + 1
+//@   ensures [patch-at-most-once]       objectpatch.nPatchExec <= old(objectpatch.nPatchExec) + 1
+//@   ensures [patch/all-or-nothing @C13] objectpatch.nPatchExec > old(objectpatch.nPatchExec) ==> objectpatch.lastDecodeErr == nil && forall(j, 0, len(objectpatch.lastSpecs), objectpatch.SpecValid(objectpatch.lastSpecs[j]))
+//@   ensures [patch/in-order @C13]       lastHookErr == nil && objectpatch.nPatchExec > old(objectpatch.nPatchExec) ==> objectpatch.nExec == old(objectpatch.nExec) + len(objectpatch.lastSpecs)
+//@        && forall(k, old(objectpatch.nExec), objectpatch.nExec, objectpatch.execOp[k] == objectpatch.opOf(objectpatch.lastSpecs[k - old(objectpatch.nExec)]))
+//@   ensures [patch/bad-file-fails @C13] lastHookErr == nil && result == nil && len(lastHookResult.KubernetesPatchBytes) > 0 ==> objectpatch.nPatchExec == old(objectpatch.nPatchExec) + 1
+//@   ensures [patch/no-file-no-patch @C13] lastHookErr == nil && len(lastHookResult.KubernetesPatchBytes) == 0 ==> objectpatch.nPatchExec == old(objectpatch.nPatchExec)
 //@   loop 1
-//@     invariant nRun == old(nRun) && lastWaitHook == old(lastWaitHook) && lastWaitErr == old(lastWaitErr) && nSetAdm == old(nSetAdm) && nPatchExec == old(nPatchExec)
+//@     invariant nRun == old(nRun) && lastWaitHook == old(lastWaitHook) && lastWaitErr == old(lastWaitErr) && nSetAdm == old(nSetAdm) && objectpatch.nPatchExec == old(objectpatch.nPatchExec)
 
 // ---- C07: combining adjacent tasks ------------------------------------------------------------
 // Accessors of task metadata as functions of the metadata value.
@@ -411,7 +408,7 @@ package shell_operator
 //@ func (*ShellOperator).taskHandleHookRun
 //@   prop C04, C18, C14
 //@   requires op.HookManager != nil && op.TaskQueues != nil && t != nil
-//@   modifies nRun, ranContexts, ranErr, nCombine, lastCombine, allMergedAllowFailure, nUpdateMeta, lastMeta, nUnlock, lastWaitHook, lastWaitErr, lastHookResult, lastHookErr, nSetAdm, lastAdmProp, nPatchExec, gotMeta, metaEpoch, rate.lastWaitLimiter, rate.lastLimiterErr
+//@   modifies nRun, ranContexts, ranErr, nCombine, lastCombine, allMergedAllowFailure, nUpdateMeta, lastMeta, nUnlock, lastWaitHook, lastWaitErr, lastHookResult, lastHookErr, nSetAdm, lastAdmProp, objectpatch.nPatchExec, objectpatch.nExec, objectpatch.execOp, objectpatch.execErr, objectpatch.lastSpecs, objectpatch.lastDecodeErr, gotMeta, metaEpoch, rate.lastWaitLimiter, rate.lastLimiterErr
 //@   modifies seenItems, filterItems, mergedTasks, mergedSeq, lastCombined, nMerged, all(queue.TaskQueue.items), all(queue.TaskQueue.measureActionFn), queue.nMut, allelems(string)
 //@   let ep0 := old(metaEpoch)
 //@   ensures [at-most-one-run]      nRun == old(nRun) || nRun == old(nRun) + 1
